@@ -4,6 +4,7 @@ import (
 	"bytes"
 	"fmt"
 	"sort"
+	"sync"
 
 	"github.com/netflix/rend/common"
 	"github.com/netflix/rend/handlers/memcached/cluster"
@@ -111,6 +112,57 @@ func c19n(e *env) {
 			}
 			w.Count("key-probe")
 		}
+		// several client connections (each with its own cluster handler over the same node set)
+		// route keys at the same time: every lookup is still the function of key and node set
+		if n >= 2 {
+			const workers, per = 8, 150
+			var wg sync.WaitGroup
+			var mu sync.Mutex
+			var cprob []string
+			ring := cluster.VerifRing(hs[0].Continuum)
+			for wk := 0; wk < workers; wk++ {
+				wg.Add(1)
+				go func(wk int) {
+					defer wg.Done()
+					defer func() {
+						if p := recover(); p != nil {
+							mu.Lock()
+							cprob = append(cprob, fmt.Sprintf("worker %d: routing a key panicked: %v", wk, p))
+							mu.Unlock()
+						}
+					}()
+					h, err := cluster.NewHandler(addrs, "c19n-conc")
+					if err != nil {
+						return
+					}
+					defer h.Close()
+					for k := 0; k < per; k++ {
+						key := []byte(fmt.Sprintf("conc-%d-%d-%d", n, wk, k))
+						b := h.Continuum.Hash(key)
+						owner, _ := c19Ref(ring, c19md5le(key))
+						if b == nil || b.Label() != owner {
+							lbl := "<nil>"
+							if b != nil {
+								lbl = b.Label()
+							}
+							mu.Lock()
+							if len(cprob) < 5 {
+								cprob = append(cprob, fmt.Sprintf("worker %d: key %q routed to %s, the key and the node set determine %s", wk, key, lbl, owner))
+							}
+							mu.Unlock()
+						}
+						if k%10 == 0 {
+							h.Set(common.SetRequest{Key: key, Data: []byte("x")})
+						}
+					}
+				}(wk)
+			}
+			wg.Wait()
+			if len(cprob) > 0 {
+				w.Fail(rig.GoFailure{Kind: "counterexample", What: "with several connections routing keys at the same time a key was not routed to the node that the key and the node set determine", Input: in, Detail: fmt.Sprint(cprob)})
+			}
+			w.Count("concurrent-routing-round")
+		}
 		for _, h := range hs {
 			h.Close()
 		}
@@ -120,7 +172,7 @@ func c19n(e *env) {
 		w.Count(fmt.Sprintf("nodes=%d", n))
 		w.Add(rig.Case{Desc: in, Coq: "tt", Nontrivial: n >= 2})
 	}
-	w.Res.Rule = "cluster.NewHandler over 1..8 (thorough ..32) fake memcached nodes on loopback TCP, three handler instances per node set (as listed, permuted, as listed again): bucket labels = configured addresses; each of 150 (1000) keys set through the first instance is stored on exactly the node the reference lookup over the instance's ring names and is a hit through the other two instances; Go-side oracles only"
+	w.Res.Rule = "cluster.NewHandler over 1..8 (thorough ..32) fake memcached nodes on loopback TCP, three handler instances per node set (as listed, permuted, as listed again): bucket labels = configured addresses; each of 150 (1000) keys set through the first instance is stored on exactly the node the reference lookup over the instance's ring names and is a hit through the other two instances; then 8 connections with their own handlers route 150 keys each at the same time (every lookup equals the reference lookup); Go-side oracles only"
 	if err := w.Finish([]string{"base.Bytes", "base.Harness"}, "unit", "(fun _ => 0%N)"); err != nil {
 		rig.Die("%v", err)
 	}
